@@ -43,6 +43,16 @@ type vSchedExec struct {
 	notes  []string
 	canon  func() string // canonical shared state (state-key pruning); set by the body
 	order  uint64        // hash of the real-time order of call / return events so far
+	// crash images taken by the body at the instant an operation acknowledged durability
+	// (Flush / Close returned nil), with the documents added before the call
+	acks []vAckImage
+}
+
+type vAckImage struct {
+	what    string
+	img     *vos.MemFS
+	durable []uint32
+	docs    []int
 }
 
 // stateHash is installed as vrt.StateHook during a controlled execution.
